@@ -267,6 +267,9 @@ class XPathNode:
                 if isinstance(child, ElementNode):
                     if c.name == child.name:
                         pos += 1
+                elif isinstance(child, ProcessingInstructionNode):
+                    if isinstance(c, ProcessingInstructionNode) and c.name == child.name:
+                        pos += 1
                 elif isinstance(c, child.__class__):
                     pos += 1
                 if c is child:
